@@ -33,8 +33,9 @@ import (
 //       helpers, with early exits and flag-accumulating styles treated alike.
 
 type c02Q1 struct {
-	c    *rt.Ctx
-	memo map[string]int // 1 yes, 2 no, 3 in progress
+	c       *rt.Ctx
+	memo    map[string]int // 1 yes, 2 no, 3 in progress
+	memoWhy map[string]string
 }
 
 // c02Threshold classifies v as a quorum threshold: "quorum" (Quorum()), "f+1" (Faulty()+1),
@@ -119,6 +120,60 @@ func c02ThresholdD(v ssa.Value, depth int) (string, bool) {
 	return "", false
 }
 
+// c02QuorumCmp reads a comparison as `count op T` with T a threshold: directly (`len(x) >= d.Quorum()`, either operand
+// order) or through a difference compared with zero (`d.Quorum() - len(x) > 0`, `len(x) - d.Quorum() >= 0`).
+func c02QuorumCmp(bin *ssa.BinOp) (count ssa.Value, kind string, op token.Token, ok bool) {
+	if !c02IsCmp(bin.Op) {
+		return nil, "", 0, false
+	}
+	count, op = bin.X, bin.Op
+	kind, isT := c02Threshold(bin.Y)
+	if !isT {
+		if kind, isT = c02Threshold(bin.X); !isT {
+			return nil, "", 0, false
+		}
+		count, op = bin.Y, c02Flip(bin.Op)
+	}
+	if kind != "mixed" {
+		return count, kind, op, true
+	}
+	// difference against zero
+	diffV, zero := bin.X, bin.Y
+	dop := bin.Op
+	n0, isC := an.ConstInt(an.Resolve(zero))
+	if !isC {
+		diffV, zero = bin.Y, bin.X
+		dop = c02Flip(dop)
+		if n0, isC = an.ConstInt(an.Resolve(zero)); !isC {
+			return count, kind, op, true
+		}
+	}
+	sub, isSub := an.Resolve(diffV).(*ssa.BinOp)
+	if !isSub || sub.Op != token.SUB {
+		return count, kind, op, true
+	}
+	if n0 != 0 {
+		// `T - c <= 1` and the like: the count is compared with the threshold shifted by a constant
+		if _, isT := c02Threshold(sub.X); isT {
+			return sub.Y, "derived", c02Flip(dop), true
+		}
+		return sub.X, "derived", dop, true
+	}
+	if k, isT := c02Threshold(sub.X); isT && k != "mixed" {
+		if _, alsoT := c02Threshold(sub.Y); !alsoT {
+			// T - c  dop  0   <=>   c  flip(dop)  T
+			return sub.Y, k, c02Flip(dop), true
+		}
+	}
+	if k, isT := c02Threshold(sub.Y); isT && k != "mixed" {
+		if _, alsoT := c02Threshold(sub.X); !alsoT {
+			// c - T  dop  0   <=>   c  dop  T
+			return sub.X, k, dop, true
+		}
+	}
+	return count, kind, op, true
+}
+
 // phiWeb collects the phi web of v and its non-phi inputs.
 func c02PhiWeb(v ssa.Value) (web map[*ssa.Phi]bool, inputs []ssa.Value) {
 	web = map[*ssa.Phi]bool{}
@@ -153,153 +208,99 @@ func c02WebLoops(fn *ssa.Function, web map[*ssa.Phi]bool) []*an.Loop {
 	return out
 }
 
-// c02UniqCalls returns the calls `u(arg)` in fn whose callee value is the closure returned by uniqSource().
-func c02UniqCalls(fn *ssa.Function) (calls []*ssa.Call, makers []*ssa.Call) {
-	for _, in := range an.Instrs(fn, false) {
-		u, ok := in.(*ssa.Call)
-		if !ok || u.Call.IsInvoke() || len(u.Call.Args) != 1 {
-			continue
-		}
-		mk := c02Static(an.Resolve(u.Call.Value), "uniqSource")
-		if mk == nil {
-			continue
-		}
-		calls = append(calls, u)
-		makers = append(makers, mk)
-	}
-	return
-}
-
-// growthGuarded decides idiom (c) for one growth instruction (append call or counter increment) of an
-// accumulator: there is a `uniq(elem)` call on the accumulated element, made by a filter created outside the
-// accumulating loops, such that (1) under "uniq(elem) == false" the growth is unreachable before the next
-// question and (2) within an iteration the growth is unreachable without asking.
-func (q *c02Q1) growthGuarded(fn *ssa.Function, growth ssa.Instruction, argOK func(ssa.Value) bool, scope []*an.Loop) (bool, string) {
-	why := "no `uniq(elem)` test on the path to the accumulation"
-	inner := an.InnermostLoop(fn, growth.Block())
-	if inner == nil {
-		return false, "accumulation outside a loop"
-	}
-	calls, makers := c02UniqCalls(fn)
-	for i, u := range calls {
-		mk := makers[i]
-		if !argOK(u.Call.Args[0]) {
-			why = "uniq is applied to a different message than the one accumulated"
-			continue
-		}
-		inScope := false
-		for _, l := range scope {
-			if l.Body[mk.Block()] {
-				inScope = true
-			}
-		}
-		if inScope {
-			why = "the uniq filter is re-created inside the accumulating loop"
-			continue
-		}
-		if !inner.Body[u.Block()] {
-			why = "uniq is asked outside the loop that accumulates"
-			continue
-		}
-		// (1) uniq said "seen before": growth must be unreachable
-		s := c02NewSim(fn)
-		hit := false
-		s.atom = func(v ssa.Value, f *c02Frame, st *c02State) (bool, bool) {
-			if v == ssa.Value(u) && f == s.root {
-				return false, true
-			}
-			return false, false
-		}
-		s.onInstr = func(in ssa.Instruction, f *c02Frame, st *c02State) c02Act {
-			if f != s.root {
-				return c02Go
-			}
-			if in == growth {
-				hit = true
-				return c02Stop
-			}
-			if in == ssa.Instruction(u) {
-				return c02Stop // asked again: a new answer
-			}
-			return c02Go
-		}
-		s.startAfter(s.root, u, 0)
-		if s.exhausted {
-			why = c02Undecided
-			continue
-		}
-		if hit {
-			why = "accumulation is not confined to the true edge of uniq(elem)"
-			continue
-		}
-		// (2) no growth without asking
-		hit = false
-		s.atom = nil
-		for _, b := range c02LoopBodyEntries(inner) {
-			s.startAt(s.root, b, 0)
-		}
-		if s.exhausted {
-			why = c02Undecided
-			continue
-		}
-		if hit {
-			why = "an iteration can accumulate without asking uniq(elem)"
-			continue
-		}
-		return true, "only where uniq(elem) answered true"
-	}
-	if why == "no `uniq(elem)` test on the path to the accumulation" {
-		// no uniqSource filter at all: does the loop look at the element's source in another way?
-		for _, in := range an.Instrs(fn, false) {
-			call, ok := in.(*ssa.Call)
-			if ok && call.Call.IsInvoke() && call.Call.Method.Name() == "Source" && inner.Body[call.Block()] && inner.ElemOf(call.Call.Value) {
-				return false, "?the accumulating loop inspects elem.Source() without the uniqSource filter: a deduplication the rule does not recognise"
-			}
-		}
-	}
-	return false, why
-}
-
-// sliceUnique: v holds at most one message per source.
+// sliceUnique: v (a value of fn) holds at most one message per source. The origin of v is followed through calls,
+// helper parameters and function literals by an exploration of fn with everything inlined, so that it does not matter
+// whether the list is filtered by filterMsgs, a generic filter helper given a predicate, or a loop written in place.
 func (q *c02Q1) sliceUnique(fn *ssa.Function, v ssa.Value) (bool, string) {
-	return q.sliceUniqueD(fn, v, 0)
+	key := fmt.Sprintf("slice:%s:%p", an.FuncName(fn), v)
+	switch q.memo[key] {
+	case 1:
+		return true, q.memoWhy[key]
+	case 2:
+		return false, q.memoWhy[key]
+	case 3:
+		return false, "?recursive origin"
+	}
+	q.memo[key] = 3
+	s := c02NewDedupSim(fn)
+	g, w := q.sliceUniqueF(s, s.root, v, 0)
+	if g {
+		q.memo[key] = 1
+	} else {
+		q.memo[key] = 2
+	}
+	if q.memoWhy == nil {
+		q.memoWhy = map[string]string{}
+	}
+	q.memoWhy[key] = w
+	return g, w
 }
 
-func (q *c02Q1) sliceUniqueD(fn *ssa.Function, v ssa.Value, depth int) (bool, string) {
-	if depth > 6 {
-		return false, "origin of the collection too deep to follow"
+func (q *c02Q1) sliceUniqueF(s *c02Sim, f *c02Frame, v ssa.Value, depth int) (bool, string) {
+	if depth > 8 {
+		return false, "?origin of the collection too deep to follow"
 	}
-	v = an.Resolve(v)
-	switch x := v.(type) {
-	case *ssa.Call:
-		if f := x.Call.StaticCallee(); f != nil && !x.Call.IsInvoke() && an.Orig(f).Pkg == fn.Pkg {
-			if q.returnsUnique(an.Orig(f), 0) {
-				return true, "result of source-unique " + an.Orig(f).Name()
-			}
-			return false, an.Orig(f).Name() + " does not return a source-unique list"
+	r := s.rootOf(v, f, nil)
+	// a callee with several returns: every one of them must yield a source-unique list
+	multi := func(call *ssa.Call, idx int) (bool, string, bool) {
+		fn, mc, cf := s.calleeOf(call, r.F, nil)
+		if fn == nil {
+			return false, "", false
 		}
+		nf := s.frameFor(r.F, call, fn, mc, cf)
+		rets := an.Returns(fn)
+		if len(rets) == 0 {
+			return false, "", false
+		}
+		name := strings.TrimPrefix(an.FuncName(fn), c02P+".")
+		for _, ret := range rets {
+			if idx >= len(ret.Results) {
+				return false, "", false
+			}
+			if an.IsNilConst(ret.Results[idx]) {
+				continue
+			}
+			if g, w := q.sliceUniqueF(s, nf, ret.Results[idx], depth+1); !g {
+				return false, name + " does not return a source-unique list: " + w, true
+			}
+		}
+		return true, "result of source-unique " + name, true
+	}
+	switch x := r.V.(type) {
+	case *ssa.Const:
+		if x.IsNil() {
+			return true, "empty list"
+		}
+	case *ssa.Call:
 		if _, isJ := c02MsgCall(x, "Justification"); isJ {
 			return false, "msg.Justification() is an unfiltered list"
 		}
-		return false, "?result of a call outside the package that is not summarised source-unique"
+		if b, isB := x.Call.Value.(*ssa.Builtin); isB && b.Name() == "append" {
+			return q.accUnique(s, r.F, x, depth)
+		}
+		if g, w, handled := multi(x, 0); handled {
+			return g, w
+		}
+		if cal := x.Call.StaticCallee(); cal != nil && !x.Call.IsInvoke() && c02PkgOf(cal) == s.pkg && c02DedupOpaque(an.Orig(cal)) {
+			return false, an.Orig(cal).Name() + " does not return a source-unique list"
+		}
+		return false, "?result of a call that is not summarised source-unique"
 	case *ssa.Extract:
 		if call, ok := x.Tuple.(*ssa.Call); ok {
-			if f := call.Call.StaticCallee(); f != nil && !call.Call.IsInvoke() && an.Orig(f).Pkg == fn.Pkg {
-				if q.returnsUnique(an.Orig(f), x.Index) {
-					return true, "result of source-unique " + an.Orig(f).Name()
-				}
-				return false, an.Orig(f).Name() + " does not return a source-unique list"
+			if g, w, handled := multi(call, x.Index); handled {
+				return g, w
 			}
 		}
 		return false, "?tuple component of unknown origin"
 	case *ssa.Slice:
-		if g, w := q.sliceUniqueD(fn, x.X, depth+1); g {
+		if g, w := q.sliceUniqueF(s, r.F, x.X, depth+1); g {
 			return true, "sub-slice of: " + w
+		} else {
+			return false, "sub-slice of a list that is not source-unique: " + w
 		}
-		return false, "sub-slice of a list that is not source-unique"
 	case *ssa.Parameter:
 		host := x.Parent()
-		if host == nil || host.Parent() != nil {
+		if r.F != s.root || host == nil || host.Parent() != nil {
 			return false, "?parameter of a function literal"
 		}
 		idx := c02ParamIndex(host, x)
@@ -307,95 +308,158 @@ func (q *c02Q1) sliceUniqueD(fn *ssa.Function, v ssa.Value, depth int) (bool, st
 		if idx < 0 || len(sites) == 0 || c02FnUsedAsValue(host) {
 			return false, "?parameter whose call sites are not all known"
 		}
-		for _, s := range sites {
-			if idx >= len(s.Common().Args) {
+		for _, site := range sites {
+			if idx >= len(site.Common().Args) {
 				return false, "?parameter whose call sites are not all known"
 			}
-			if g, w := q.sliceUniqueD(s.Parent(), s.Common().Args[idx], depth+1); !g {
-				return false, "a caller (" + strings.TrimPrefix(an.FuncName(s.Parent()), c02P+".") + ") passes a list that is not source-unique: " + w
+			if g, w := q.sliceUnique(site.Parent(), site.Common().Args[idx]); !g {
+				return false, "a caller (" + strings.TrimPrefix(an.FuncName(site.Parent()), c02P+".") + ") passes a list that is not source-unique: " + w
 			}
 		}
 		return true, "parameter; every in-package caller passes a source-unique list"
 	case *ssa.Phi:
-		web, inputs := c02PhiWeb(x)
-		loops := c02WebLoops(fn, web)
-		appends := 0
-		for _, in := range inputs {
-			if an.IsNilConst(in) {
-				continue
+		return q.accUnique(s, r.F, x, depth)
+	case *ssa.UnOp:
+		if x.Op == token.MUL {
+			if g, w, handled := q.memAccUnique(s, r, x); handled {
+				return g, w
 			}
-			call, ok := in.(*ssa.Call)
-			if ok {
-				if b, isB := call.Call.Value.(*ssa.Builtin); isB && b.Name() == "append" {
-					appends++
-					if len(loops) == 0 {
-						return false, "accumulator is not loop-carried"
-					}
-					base, ok := call.Call.Args[0].(*ssa.Phi)
-					if !ok || !web[base] {
-						return false, "append does not extend the accumulator itself"
-					}
-					elems := appendedElems(call)
-					if len(elems) != 1 {
-						return false, "append adds several messages at once (not one tested message)"
-					}
-					e := elems[0]
-					ok2, why := q.growthGuarded(fn, call, func(a ssa.Value) bool { return a == e || an.Equiv(a, e) }, loops)
-					if !ok2 {
-						return false, why
-					}
-					continue
-				}
-			}
-			// another source-unique list merged in (e.g. an early result)
-			if _, isPhi := in.(*ssa.Phi); !isPhi {
-				if g, _ := q.sliceUniqueD(fn, in, depth+1); g {
-					continue
-				}
-			}
-			return false, "accumulator receives a value that is neither nil, a source-unique list nor an append"
 		}
-		if appends == 0 {
-			return true, "merge of source-unique lists"
-		}
-		return true, "every append happens only where uniq(elem) answered true"
 	}
 	return false, "?collection of unknown origin"
 }
 
-func (q *c02Q1) returnsUnique(f *ssa.Function, idx int) bool {
-	key := fmt.Sprintf("%s#%d", an.FuncName(f), idx)
-	switch q.memo[key] {
-	case 1:
-		return true
-	case 2, 3:
-		return false
+// memAccUnique: the list is kept in a field of a local struct and extended in place, possibly by a method of the
+// struct (`c.qrc = append(c.qrc, rc)`): every store into the field must append one element to the field's own value,
+// below the body of a loop of the struct's function, guarded like any other accumulation.
+func (q *c02Q1) memAccUnique(s *c02Sim, r c02VF, ld *ssa.UnOp) (bool, string, bool) {
+	base, path := s.fieldAddrOf(ld.X, r.F)
+	al, ok := base.V.(*ssa.Alloc)
+	if !ok || path == "" {
+		return false, "", false
 	}
-	q.memo[key] = 3
-	rets := an.Returns(f)
-	ok := len(rets) > 0
-	for _, r := range rets {
-		if idx >= len(r.Results) {
-			ok = false
-			break
+	if !s.discovered {
+		s.discover()
+		s.discovered = true
+		if s.exhausted {
+			return false, c02Undecided, true
 		}
-		if an.IsNilConst(r.Results[idx]) {
+	}
+	id := c02MemID{al, base.F, path}
+	F := base.F
+	n := 0
+	for _, ms := range s.memStores(id) {
+		if an.IsNilConst(ms.st.Val) {
 			continue
 		}
-		if u, _ := q.sliceUnique(f, r.Results[idx]); !u {
-			ok = false
-			break
+		call, ok := ms.st.Val.(*ssa.Call)
+		if !ok {
+			return false, "?the list kept in a struct field receives a value that is not an append to itself", true
 		}
+		if b, isB := call.Call.Value.(*ssa.Builtin); !isB || b.Name() != "append" {
+			return false, "?the list kept in a struct field receives a value that is not an append to itself", true
+		}
+		old, isLd := s.rootOf(call.Call.Args[0], ms.f, nil).V.(*ssa.UnOp)
+		if !isLd || old.Op != token.MUL {
+			return false, "?the list kept in a struct field receives a value that is not an append to itself", true
+		}
+		if ob, op := s.fieldAddrOf(old.X, ms.f); ob.V != id.v || ob.F != id.f || op != id.path {
+			return false, "?the list kept in a struct field receives a value that is not an append to itself", true
+		}
+		elems := appendedElems(call)
+		if len(elems) != 1 {
+			return false, "append adds several messages at once (not one tested message)", true
+		}
+		if !ms.f.under(F) {
+			return false, "?the list kept in a struct field is extended outside the activation that owns the struct", true
+		}
+		// where, in the struct's function, the extension happens
+		blk := ms.st.Block()
+		for x := ms.f; x != F; x = x.parent {
+			if x.parent == F {
+				blk = x.site.Block()
+			}
+		}
+		inner := an.InnermostLoop(F.fn, blk)
+		if inner == nil || inner.Body[al.Block()] {
+			return false, "?the list kept in a struct field is not extended in a loop that outlives the struct", true
+		}
+		var scope []*an.Loop
+		for _, l := range an.LoopsContaining(F.fn, blk) {
+			if !l.Body[al.Block()] {
+				scope = append(scope, l)
+			}
+		}
+		e := s.rootOf(elems[0], ms.f, nil)
+		isElem := func(a c02VF) bool { return a.V == e.V && a.F == e.F }
+		if ok2, why := s.growthGuardedIn(F, inner, call, ms.f, isElem, scope); !ok2 {
+			return false, why, true
+		}
+		n++
 	}
-	if ok {
-		q.memo[key] = 1
-	} else {
-		q.memo[key] = 2
+	if n == 0 {
+		return false, "?no extension of the list kept in a struct field found", true
 	}
-	return ok
+	return true, "list kept in a struct field; every extension happens only where the element's source was not seen before", true
 }
 
-// counterUnique: v is a loop-carried counter incremented by one only where uniq(elem) answered true.
+// accUnique: the accumulator (a loop-carried list of frame F, given by one value of its phi web or an append to it)
+// grows only by elements whose source was not seen before.
+func (q *c02Q1) accUnique(s *c02Sim, F *c02Frame, v ssa.Value, depth int) (bool, string) {
+	if call, ok := v.(*ssa.Call); ok {
+		// an append returned directly: judge the web of its base
+		base, ok := call.Call.Args[0].(*ssa.Phi)
+		if !ok {
+			return false, "?append to a list of unknown origin"
+		}
+		v = base
+	}
+	web, inputs := c02PhiWeb(v)
+	loops := c02WebLoops(F.fn, web)
+	appends := 0
+	for _, in := range inputs {
+		if an.IsNilConst(in) {
+			continue
+		}
+		if call, ok := in.(*ssa.Call); ok {
+			if b, isB := call.Call.Value.(*ssa.Builtin); isB && b.Name() == "append" {
+				appends++
+				if len(loops) == 0 {
+					return false, "?accumulator is not loop-carried"
+				}
+				base, ok := call.Call.Args[0].(*ssa.Phi)
+				if !ok || !web[base] {
+					return false, "?append does not extend the accumulator itself"
+				}
+				elems := appendedElems(call)
+				if len(elems) != 1 {
+					return false, "append adds several messages at once (not one tested message)"
+				}
+				e := s.rootOf(elems[0], F, nil)
+				isElem := func(a c02VF) bool {
+					return (a.V == e.V && a.F == e.F) || (a.F == e.F && an.Equiv(a.V, e.V))
+				}
+				if ok2, why := s.growthGuarded(F, call, isElem, loops); !ok2 {
+					return false, why
+				}
+				continue
+			}
+		}
+		// another source-unique list merged in (e.g. an early result)
+		if _, isPhi := in.(*ssa.Phi); !isPhi {
+			if g, _ := q.sliceUniqueF(s, F, in, depth+1); g {
+				continue
+			}
+		}
+		return false, "?accumulator receives a value that is neither nil, a source-unique list nor an append"
+	}
+	if appends == 0 {
+		return true, "merge of source-unique lists"
+	}
+	return true, "every append happens only where the element's source was not seen before"
+}
+
+// counterUnique: v is a loop-carried counter incremented by one only for elements whose source was not seen before.
 func (q *c02Q1) counterUnique(fn *ssa.Function, v ssa.Value) (bool, string) {
 	p, ok := an.Resolve(v).(*ssa.Phi)
 	if !ok {
@@ -404,15 +468,16 @@ func (q *c02Q1) counterUnique(fn *ssa.Function, v ssa.Value) (bool, string) {
 	web, inputs := c02PhiWeb(p)
 	loops := c02WebLoops(fn, web)
 	if len(loops) == 0 {
-		return false, "counter is not loop-carried"
+		return false, "?counter is not loop-carried"
 	}
+	s := c02NewDedupSim(fn)
 	for _, in := range inputs {
 		if n, ok := an.ConstInt(in); ok && n == 0 {
 			continue
 		}
 		bin, ok := in.(*ssa.BinOp)
 		if !ok || bin.Op != token.ADD {
-			return false, "counter receives a value that is neither 0 nor counter+1"
+			return false, "?counter receives a value that is neither 0 nor counter+1"
 		}
 		base, okb := bin.X.(*ssa.Phi)
 		n, okn := an.ConstInt(bin.Y)
@@ -421,18 +486,18 @@ func (q *c02Q1) counterUnique(fn *ssa.Function, v ssa.Value) (bool, string) {
 			n, okn = an.ConstInt(bin.X)
 		}
 		if !okb || !web[base] || !okn || n != 1 {
-			return false, "counter receives a value that is neither 0 nor counter+1"
+			return false, "?counter receives a value that is neither 0 nor counter+1"
 		}
 		l := an.InnermostLoop(fn, bin.Block())
 		if l == nil {
 			return false, "increment outside a loop"
 		}
-		ok2, why := q.growthGuarded(fn, bin, func(a ssa.Value) bool { return l.ElemOf(a) }, loops)
-		if !ok2 {
+		isElem := func(a c02VF) bool { return a.F == s.root && c02ElemOf(l, a.V) }
+		if ok2, why := s.growthGuarded(s.root, bin, isElem, loops); !ok2 {
 			return false, why
 		}
 	}
-	return true, "every increment happens only where uniq(elem) answered true"
+	return true, "every increment happens only where the element's source was not seen before"
 }
 
 // mapUnique: v is a map built in fn (or in the in-package function that returns it) all of whose insertions
@@ -513,6 +578,38 @@ func (q *c02Q1) mapUniqueD(fn *ssa.Function, v ssa.Value, depth int) (bool, stri
 			}
 		}
 	}
+	// an element of a map of maps produced by an in-package helper (`for _, bySource := range groupBy(all)`): judged in
+	// the helper, on every inner map it stores
+	if outer := c02OuterMapOf(rv); outer != nil {
+		if call, ok := an.Resolve(outer).(*ssa.Call); ok && !call.Call.IsInvoke() && call.Call.StaticCallee() != nil {
+			g := an.Orig(call.Call.StaticCallee())
+			if c02PkgOf(g) == fn.Pkg && g.Blocks != nil && g.Signature.Results().Len() == 1 {
+				n := 0
+				for _, r := range an.Returns(g) {
+					mm, ok := an.Resolve(r.Results[0]).(*ssa.MakeMap)
+					if !ok {
+						if an.IsNilConst(r.Results[0]) {
+							continue
+						}
+						return false, "?" + g.Name() + " does not return a map it made"
+					}
+					for _, in := range an.Instrs(g, true) {
+						up, ok := in.(*ssa.MapUpdate)
+						if !ok || an.Resolve(up.Map) != ssa.Value(mm) || an.IsNilConst(up.Value) {
+							continue
+						}
+						n++
+						if ok2, w := q.mapUniqueD(g, up.Value, depth+1); !ok2 {
+							return false, "a map stored by " + g.Name() + ": " + w
+						}
+					}
+				}
+				if n > 0 {
+					return true, "element of the map of maps made by " + g.Name() + "; every inner map is made there and keyed by msg.Source()"
+				}
+			}
+		}
+	}
 	seen := map[ssa.Value]bool{}
 	var local func(x ssa.Value) bool
 	local = func(x ssa.Value) bool {
@@ -573,6 +670,26 @@ func (q *c02Q1) mapUniqueD(fn *ssa.Function, v ssa.Value, depth int) (bool, stri
 	return true, fmt.Sprintf("map made locally; all %d insertion(s) keyed by msg.Source() of the stored message", n)
 }
 
+// c02OuterMapOf: v is an element of a map (range value, lookup result); returns that map.
+func c02OuterMapOf(v ssa.Value) ssa.Value {
+	switch y := v.(type) {
+	case *ssa.Lookup:
+		return y.X
+	case *ssa.Extract:
+		switch t := y.Tuple.(type) {
+		case *ssa.Lookup:
+			if y.Index == 0 {
+				return t.X
+			}
+		case *ssa.Next:
+			if r, ok := t.Iter.(*ssa.Range); ok && y.Index == 2 {
+				return r.X
+			}
+		}
+	}
+	return nil
+}
+
 // c02OuterOK: m is a map made in fn and everything stored in it satisfies pred.
 func c02OuterOK(fn *ssa.Function, m ssa.Value, pred func(ssa.Value) bool) bool {
 	mm, ok := an.Resolve(m).(*ssa.MakeMap)
@@ -606,7 +723,7 @@ func (q *c02Q1) forallUnique(fn *ssa.Function, coll ssa.Value, cmp ssa.Value, cm
 	if resIdx < 0 {
 		return false, "unfiltered collection counted in a function without a boolean verdict"
 	}
-	s := c02NewSim(fn)
+	s := c02NewDedupSim(fn)
 	s.discover()
 	if s.exhausted {
 		return false, c02Undecided
@@ -619,7 +736,7 @@ func (q *c02Q1) forallUnique(fn *ssa.Function, coll ssa.Value, cmp ssa.Value, cm
 	var cands []cand
 	for _, f := range s.allFrames() {
 		for _, l := range an.Loops(f.fn) {
-			rc := l.RangeColl()
+			rc := c02RangeColl(l)
 			if rc == nil {
 				continue
 			}
@@ -642,79 +759,19 @@ func (q *c02Q1) forallUnique(fn *ssa.Function, coll ssa.Value, cmp ssa.Value, cm
 			why = "?the scan of the counted collection is not recognised as complete: " + w
 			continue
 		}
-		// uniq questions asked about this loop's element, grouped by the filter that answers
-		type ask struct {
-			u *ssa.Call
-			f *c02Frame
+		// the sets of seen sources consulted about this loop's element
+		s.iterate(f, l)
+		if s.exhausted {
+			why = c02Undecided
+			continue
 		}
-		byMaker := map[*ssa.Call][]ask{}
-		var makers []*ssa.Call
-		for _, g := range s.allFrames() {
-			if !g.under(f) {
-				continue
-			}
-			// g == f: the question must lie in the loop body; deeper frames: their call chain must enter from the body
-			inBody := func(b *ssa.BasicBlock) bool { return l.Body[b] }
-			okChain := true
-			for x := g; x != f; x = x.parent {
-				if x.parent == f && !inBody(x.site.Block()) {
-					okChain = false
-				}
-			}
-			if !okChain {
-				continue
-			}
-			for _, in := range an.Instrs(g.fn, false) {
-				u, ok := in.(*ssa.Call)
-				if !ok || u.Call.IsInvoke() || len(u.Call.Args) != 1 {
-					continue
-				}
-				if g == f && !inBody(u.Block()) {
-					continue
-				}
-				mkv := s.rootOf(u.Call.Value, g, nil)
-				mk := c02Static(mkv.V, "uniqSource")
-				if mk == nil {
-					continue
-				}
-				// the filter must not be re-created per element
-				if mkv.F == f && l.Body[mk.Block()] {
-					why = "the uniq filter is re-created inside the scanning loop"
-					continue
-				}
-				if mkv.F != f && !f.under(mkv.F) {
-					why = "the uniq filter is re-created inside the scanning loop"
-					continue
-				}
-				a := s.rootOf(u.Call.Args[0], g, nil)
-				if a.F != f || !l.ElemOf(a.V) {
-					why = "uniq is applied to something other than the scanned element"
-					continue
-				}
-				if _, ok := byMaker[mk]; !ok {
-					makers = append(makers, mk)
-				}
-				byMaker[mk] = append(byMaker[mk], ask{u, g})
-			}
-		}
+		isElem := func(a c02VF) bool { return a.F == f && c02ElemOf(l, a.V) }
+		makers, w0, other := s.dedups(f, l, isElem)
 		if len(makers) == 0 {
-			// no uniqSource filter: does the scan look at the element's source in some other way?
-			for _, g := range s.allFrames() {
-				if !g.under(f) {
-					continue
-				}
-				for _, in := range an.Instrs(g.fn, false) {
-					call, ok := in.(*ssa.Call)
-					if !ok || !call.Call.IsInvoke() || call.Call.Method.Name() != "Source" {
-						continue
-					}
-					if g == f && !l.Body[call.Block()] {
-						continue
-					}
-					if a := s.rootOf(call.Call.Value, g, nil); a.F == f && l.ElemOf(a.V) {
-						why = "?the scan of the counted collection inspects elem.Source() without the uniqSource filter: a deduplication the rule does not recognise"
-					}
-				}
+			if w0 != "" {
+				why = w0
+			} else if other {
+				why = "?the scan of the counted collection inspects elem.Source() but not through a set of seen sources the rule recognises"
 			}
 			continue
 		}
@@ -762,45 +819,29 @@ func (q *c02Q1) forallUnique(fn *ssa.Function, coll ssa.Value, cmp ssa.Value, cm
 			why = bad
 			continue
 		}
-		// (B) a well-behaved iteration cannot jump to acceptance (break / return true inside the loop)
-		s.atom, s.onInstr = nil, nil
-		s.onBlock = func(b *ssa.BasicBlock, fr *c02Frame, st *c02State) c02Act {
-			if b == l.Header && fr == f {
-				return c02Stop
-			}
-			return c02Go
-		}
-		s.onRet = func(r *ssa.Return, st *c02State) {
-			if accepting(r, st) {
-				bad = "the scan can be left early towards an accepting return"
-			}
-		}
-		for _, b := range c02LoopBodyEntries(l) {
-			s.startAt(f, b, 0)
-		}
-		if s.exhausted {
+		// (B) while elements remain the scan is not left towards acceptance (break / return true / another clause of the
+		// loop condition)
+		s.atom, s.onInstr, s.onBlock, s.onRet = nil, nil, nil, nil
+		if ok, exh := c02ScanLeftOnlyToReject(s, f, l, accepting); exh {
 			why = c02Undecided
 			continue
-		}
-		if bad != "" {
-			why = bad
+		} else if !ok {
+			why = "the scan can be left early towards an accepting return"
 			continue
 		}
-		// (C) an element whose source was seen before leads to rejection, whatever the later elements are
-		for _, mk := range makers {
-			asks := byMaker[mk]
+		// (C) an element whose source was seen before leads to rejection, whatever the later elements are, and
+		// (D) an element that passes has its source recorded
+		const recordedF = 8
+		for _, d := range makers {
+			d := d
 			bad = ""
 			s.atom = func(v ssa.Value, fr *c02Frame, st *c02State) (bool, bool) {
 				if st.flags&laterIter != 0 {
 					return false, false
 				}
-				for _, a := range asks {
-					if v == ssa.Value(a.u) && fr == a.f {
-						return false, true
-					}
-				}
-				return false, false
+				return d.seenAtom(v, fr)
 			}
+			s.onInstr = nil
 			s.onBlock = func(b *ssa.BasicBlock, fr *c02Frame, st *c02State) c02Act {
 				if b == l.Header && fr == f {
 					st.flags |= laterIter
@@ -819,7 +860,37 @@ func (q *c02Q1) forallUnique(fn *ssa.Function, coll ssa.Value, cmp ssa.Value, cm
 				bad = c02Undecided
 			}
 			if bad == "" {
-				return true, "accepting returns lie after a full scan rejecting on !uniq(elem)"
+				// under "the source was not seen before" (the other answer is (C)'s)
+				s.onRet = nil
+				s.atom = func(v ssa.Value, fr *c02Frame, st *c02State) (bool, bool) {
+					t, ok := d.seenAtom(v, fr)
+					return !t, ok
+				}
+				s.onInstr = func(in ssa.Instruction, fr *c02Frame, st *c02State) c02Act {
+					if d.isRec(in, fr) {
+						st.flags |= recordedF
+					}
+					return c02Go
+				}
+				s.onBlock = func(b *ssa.BasicBlock, fr *c02Frame, st *c02State) c02Act {
+					if b == l.Header && fr == f {
+						if st.flags&recordedF == 0 {
+							bad = "an element can pass the scan without its source being recorded as seen"
+						}
+						return c02Stop
+					}
+					return c02Go
+				}
+				for _, b := range c02LoopBodyEntries(l) {
+					s.startAt(f, b, 0)
+				}
+				if s.exhausted {
+					bad = c02Undecided
+				}
+			}
+			s.atom, s.onInstr, s.onBlock, s.onRet = nil, nil, nil, nil
+			if bad == "" {
+				return true, "accepting returns lie after a full scan rejecting every element whose source was seen before"
 			}
 			why = bad
 		}
@@ -870,6 +941,54 @@ func (q *c02Q1) paramCounted(fn *ssa.Function, p *ssa.Parameter, cmp *ssa.BinOp,
 		return false, "the caller " + caller + " passes a list that is not source-unique: " + w
 	}
 	return true, "parameter; every in-package caller passes a source-unique list (or scans it rejecting repeated sources before accepting)"
+}
+
+func c02IsIntParam(v ssa.Value, fn *ssa.Function) bool {
+	p, ok := v.(*ssa.Parameter)
+	if !ok || fn.Parent() != nil || p.Parent() != fn {
+		return false
+	}
+	b, ok := p.Type().Underlying().(*types.Basic)
+	return ok && b.Info()&types.IsInteger != 0
+}
+
+// countParam decides a comparison whose count is an integer handed to the helper fn (`hasQuorum(d, len(commits))`):
+// at every in-package call site the argument must be len() of a source-unique collection.
+func (q *c02Q1) countParam(fn *ssa.Function, p *ssa.Parameter) (bool, string) {
+	idx := c02ParamIndex(fn, p)
+	sites := c02InPkgCallers(fn)
+	if idx < 0 || len(sites) == 0 || c02FnUsedAsValue(fn) {
+		return false, "?the count is a parameter of a function whose call sites are not all known"
+	}
+	for _, site := range sites {
+		if idx >= len(site.Common().Args) {
+			return false, "?the count is a parameter of a function whose call sites are not all known"
+		}
+		caller := site.Parent()
+		cname := strings.TrimPrefix(an.FuncName(caller), c02P+".")
+		a := an.Resolve(site.Common().Args[idx])
+		la := c02LenArg(a)
+		var g bool
+		var w string
+		switch {
+		case la == nil && c02IsIntParam(a, caller):
+			g, w = q.countParam(caller, a.(*ssa.Parameter))
+		case la == nil:
+			g, w = q.counterUnique(caller, a)
+		case an.IsMapType(la.Type()):
+			g, w = q.mapUnique(caller, la)
+		default:
+			g, w = q.sliceUnique(caller, la)
+		}
+		if !g {
+			if !strings.Contains(w, "?") && !strings.Contains(w, c02Undecided) {
+				// the helper only compares; whether the caller scans the list itself is not followed here
+				w = "?" + w
+			}
+			return false, "the caller " + cname + " hands over a count that is not that of a source-unique collection: " + w
+		}
+	}
+	return true, "count parameter; every in-package caller passes len() of a source-unique collection"
 }
 
 // c02Expect freezes which threshold each counting function uses (QBFT: every rule needs a
@@ -946,20 +1065,17 @@ func c02Branches(fn *ssa.Function, v ssa.Value) [][2]*ssa.BasicBlock {
 func c02Q1Rule(c *rt.Ctx) {
 	q := &c02Q1{c: c, memo: map[string]int{}}
 	covered := map[string]int{}
-	for _, fn := range an.PkgFuncs(c.SSAPkg(c02P)) {
+	nCmp := 0
+	for _, fn := range c02PkgFuncs(c.SSAPkg(c02P)) {
 		ord := map[string]int{}
 		for _, in := range an.Instrs(fn, false) {
 			bin, ok := in.(*ssa.BinOp)
 			if !ok || !c02IsCmp(bin.Op) {
 				continue
 			}
-			count, op := bin.X, bin.Op
-			kind, isT := c02Threshold(bin.Y)
+			count, kind, op, isT := c02QuorumCmp(bin)
 			if !isT {
-				if kind, isT = c02Threshold(bin.X); !isT {
-					continue
-				}
-				count, op = bin.Y, c02Flip(bin.Op)
+				continue
 			}
 			name := strings.TrimPrefix(an.FuncName(fn), c02P+".")
 			ord[name]++
@@ -990,8 +1106,14 @@ func c02Q1Rule(c *rt.Ctx) {
 			}
 			want, owner, known := c02ExpectFor(fn)
 			if !known {
-				c.Unsure(key, pos, "quorum comparison in a function that is neither in the frozen threshold table nor a helper called only from functions of the table with one threshold")
-				continue
+				// a function the table does not know (renamed, split off, merged): counting against a full quorum is never
+				// weaker than what any rule of the protocol needs for agreement, so only the source-uniqueness of what is
+				// counted remains to be decided; a lower threshold cannot be placed
+				if kind != "quorum" {
+					c.Unsure(key, pos, fmt.Sprintf("threshold %s in a function that is neither in the frozen threshold table nor a helper called only from functions of the table with one threshold", kind))
+					continue
+				}
+				want, owner = kind, ""
 			}
 			if want != kind {
 				if _, own := c02Expect[name]; !own {
@@ -1005,6 +1127,7 @@ func c02Q1Rule(c *rt.Ctx) {
 			for _, o := range strings.Split(owner, ",") {
 				covered[o]++
 			}
+			nCmp++
 			// which outcome of the comparison means "threshold reached"
 			var trueReached bool
 			switch op {
@@ -1022,6 +1145,8 @@ func c02Q1Rule(c *rt.Ctx) {
 			count = an.Resolve(count)
 			arg := c02LenArg(count)
 			switch {
+			case arg == nil && c02IsIntParam(count, fn):
+				good, why = q.countParam(fn, count.(*ssa.Parameter))
 			case arg == nil:
 				good, why = q.counterUnique(fn, count)
 			case an.IsMapType(arg.Type()):
@@ -1078,21 +1203,21 @@ func c02Q1Rule(c *rt.Ctx) {
 		names = append(names, n)
 	}
 	sort.Strings(names)
-	present := 0
 	for _, n := range names {
 		f := c.FnOpt(c02P + "." + n)
 		if f == nil {
-			continue // merged into its caller: the comparison is attributed there
+			continue // merged into its caller or renamed: its comparisons are attributed to the function they now lie in
 		}
-		present++
 		if covered[n] > 0 {
 			c.Good(n+" counts against its protocol threshold", f.Pos(), fmt.Sprintf("%d comparison(s) with %s", covered[n], c02Expect[n]))
 		} else {
 			c.Unsure(n+" counts against its protocol threshold", f.Pos(), "no comparison with Quorum()/Faulty()+1 found in the function or a helper it owns (threshold hidden from the rule?)")
 		}
 	}
-	if present < 6 {
-		c.Unsure("threshold table", c.SSAPkg(c02P).Pkg.Scope().Pos(), fmt.Sprintf("only %d of the %d functions of the frozen threshold table still exist", present, len(names)))
+	// vacuity: the protocol decides on quorums of PREPAREs, COMMITs and ROUND-CHANGEs, on the three justification
+	// predicates and on the f+1 jump; fewer deciding comparisons than that means thresholds are hidden from the rule
+	if nCmp < 6 {
+		c.Unsure("threshold comparisons", c.SSAPkg(c02P).Pkg.Scope().Pos(), fmt.Sprintf("only %d comparisons with Quorum()/Faulty()+1 found in the package", nCmp))
 	}
 	c02Q1UniqSource(c)
 }
@@ -1100,7 +1225,12 @@ func c02Q1Rule(c *rt.Ctx) {
 // c02Q1UniqSource checks the filter itself: the closure returned by uniqSource answers true only for a source it
 // has not answered true for before — it tests dedup[msg.Source()] and records it — on a map made per call.
 func c02Q1UniqSource(c *rt.Ctx) {
-	us := c.Fn(c02P + ".uniqSource")
+	us := c.FnOpt(c02P + ".uniqSource")
+	if us == nil {
+		// no such helper (renamed, replaced by a set type, or written in place): every counted collection is judged on
+		// the set of seen sources it actually consults, asked and recorded, wherever that lives
+		return
+	}
 	var cl *ssa.Function
 	var mcs []*ssa.MakeClosure
 	for _, r := range an.Returns(us) {
